@@ -26,7 +26,7 @@ func init() {
 					"(b) exhaustive enumeration of all histories up to a length bound over {Add,Push,Pop,PopLast} for preallocated sizes 0..4, " +
 					"(c) PRNG histories of 20..300 ops with phase-switching op mixes. After EVERY op: Len, IsEmpty, Front, Slice, Each (with early stop), Peek(n) for all n in [-Len-2, Len+1]. " +
 					"distinct = distinct (constructor, history) hashes; non-trivial = the history contained at least one wrap of the ring indices or a regrow while head > 0 (seen through the VerifState hook)",
-				Required:     []string{"rotate_then_grow_add", "rotate_then_grow_push", "backward_wrap_push", "forward_wrap_add", "pop_to_empty", "steps", "large_capacity_scenarios"},
+				Required:     []string{"rotate_then_grow_add", "rotate_then_grow_push", "backward_wrap_push", "forward_wrap_add", "pop_to_empty", "steps", "large_capacity_scenarios", "element_type_checks"},
 				Exhaustive:   true,
 				Assumptions:  []string{"reference model: Go slice with append/prepend/pop semantics", "hook queue.VerifState used for reach counters only, never for verdicts"},
 				CoverPkgs:    []string{"github.com/creachadair/mds/queue", "github.com/creachadair/mds/slice"},
@@ -397,6 +397,65 @@ func runC07(c *fw.Ctx) {
 		}
 	}
 	light = false
+	if c.Block == 0 && c.Begin(60000) {
+		// other element types: zero-size elements and strings
+		ok, pv, stack := fw.Try(func() {
+			for _, ctor := range []int{-2, -1, 0, 3} {
+				var qz *queue.Queue[struct{}]
+				var qs *queue.Queue[string]
+				switch ctor {
+				case -2:
+					qz, qs = new(queue.Queue[struct{}]), new(queue.Queue[string])
+				case -1:
+					qz, qs = queue.New[struct{}](), queue.New[string]()
+				default:
+					qz, qs = queue.NewSize[struct{}](ctor), queue.NewSize[string](ctor)
+				}
+				var ref []string
+				for i := 0; i < 40; i++ {
+					switch i % 5 {
+					case 0, 1, 2:
+						v := fmt.Sprint("v", i)
+						if i%2 == 0 {
+							qz.Add(struct{}{})
+							qs.Add(v)
+							ref = append(ref, v)
+						} else {
+							qz.Push(struct{}{})
+							qs.Push(v)
+							ref = append([]string{v}, ref...)
+						}
+					case 3:
+						qz.Pop()
+						qs.Pop()
+						if len(ref) > 0 {
+							ref = ref[1:]
+						}
+					case 4:
+						if i%10 == 9 {
+							qz.Clear()
+							qs.Clear()
+							ref = nil
+						} else {
+							qz.PopLast()
+							qs.PopLast()
+							if len(ref) > 0 {
+								ref = ref[:len(ref)-1]
+							}
+						}
+					}
+					if qz.Len() != len(ref) || qs.Len() != len(ref) || len(qz.Slice()) != len(ref) || !equalStrings(qs.Slice(), ref) {
+						c.Fail(map[string]any{"element_types": "struct{} and string", "ctor": ctor}, "after %d ops: Len=%d/%d, string queue %v, want %v", i+1, qz.Len(), qs.Len(), qs.Slice(), ref)
+						return
+					}
+				}
+			}
+		})
+		if !ok {
+			c.FailKind("panic", map[string]any{"element_types": "struct{} and string"}, "panic with a non-int element type: %v\n%s", pv, stack)
+		}
+		c.Add("element_type_checks", 1)
+	}
 	idx = 100000
 
 	// (b) exhaustive enumeration over {Add,Push,Pop,PopLast} up to length L
